@@ -242,10 +242,41 @@ def r19_text_layouts(ctx):
     ctx.require(ok, 'R19.2', 'read(binary with stray bytes)', w, f'{outs}', construct=f'{rd.qname}::binary-stray')
 
 
+def r19_binary_leading(ctx):
+    """A binary file in which another message comes BEFORE the first sysex (or that holds no sysex at all) is still a binary
+    file: the other messages are dropped, the sysex messages returned."""
+    m = ctx.p.module(SYX)
+    rd = ctx.fn(m.functions['read_syx_file'])
+    w = ctx.where(rd)
+    x, y = smf.sym('x', 127), smf.sym('y', 127)
+    cases = {
+        'clock first': ([0xf8, 0xf0, x, y, 0xf7], [(x, y)]),
+        'note_on first': ([0x90, 0x40, 0x40, 0xf0, x, 0xf7], [(x,)]),
+        'program_change first': ([0xc0, 0x05, 0xf0, 0xf7], [()]),
+        'two polytouch messages whose data bytes spell F0 / F7 in ASCII, no sysex': ([0xa0, 0x46, 0x30, 0xa0, 0x46, 0x37], []),
+        'active_sensing only': ([0xfe], []),
+    }
+    n = 0
+    for name, (content, want) in cases.items():
+        ai = make_interp(ctx)
+        ai.fs['b.syx'] = {'mode': 'wb', 'chunks': [AList(list(content), 'bytearray')]}
+        outs = ai.explore(lambda: ai.call_function(rd, ['b.syx'], {}))
+        n += 1
+        ok = len(outs) == 1 and outs[0].kind == 'return'
+        got = None
+        if ok:
+            items = outs[0].value.items if isinstance(outs[0].value, AList) else list(outs[0].value)
+            got = [tuple(i_.attrs['data'].items) if isinstance(i_.attrs.get('data'), AList) else i_.attrs.get('data') for i_ in items]
+            ok = len(got) == len(want) and all(len(a) == len(b) and all(wire.value_equal(p_, q_) for p_, q_ in zip(a, b)) for a, b in zip(got, want))
+        ctx.require(ok, 'R19.1', f'read(binary, {name})', w, f'{smf.describe(content)} reads as {got if got is not None else outs}; expected the sysex payloads {want}',
+                    construct=f'{rd.qname}::binary-leading-message')
+    ctx.floor('R19.1-binary-leading', n, 5)
+
+
 def r19_queue(ctx):
     """read_syx_file feeds the whole file to one Parser before retrieving anything: its queues must be unbounded."""
     from . import parsershape
     parsershape.check_parser_init(ctx, 'R19.4')
 
 
-RULES = [('R19-roundtrip', r19_roundtrip), ('R19-text', r19_text_layouts), ('R19.4', r19_queue)]
+RULES = [('R19-roundtrip', r19_roundtrip), ('R19-text', r19_text_layouts), ('R19-binary', r19_binary_leading), ('R19.4', r19_queue)]
